@@ -26,6 +26,9 @@ CLAIMS = {
  "C13": dict(ref="7/C13",
    text="Proof (Coq): _find_lcas (flags, _DNC propagation, final redundancy filter) returns exactly the maximal common ancestors of c1 and c2s for every DAG, every query and every order in which the work list is popped (the pop position is an arbitrary function, which covers every assignment of timestamps, ties and backwards clocks, since timestamps only order the heap); can_fast_forward is exactly the ancestor test. Invariant proof over the loop (soundness of the three flag maps, propagation closure for nodes off the work list, candidates) plus completeness along ancestor paths and existence of a maximal common ancestor above any common ancestor. Correspondence: every DAG up to 4 commits (5 in thorough) x timestamp vectors over {0,1,2} x all query pairs vs the implementation and an independent closure-based reference; random DAGs to 300 commits with skewed/negative stamps through find_merge_base / can_fast_forward / independent on a MemoryRepo; git merge-base --all/--is-ancestor on a sample. Partial: the theorem is conditional on the fuelled model loop finishing (never observed to run out: the runner would report 'fuel'); independent/find_octopus_base and the history walker (Walker, topo order) are checked on the implementation only; commit-graph-backed parents are C14's concern.",
    note="Two theorems; axiom used: Classical_Prop.classic (standard library), for the existence of a maximal element."),
+ "C01": dict(ref="7/C01",
+   text="Proof (Coq): (a) the ShaFile cache automaton — after any sequence of setters, raw-content replacements, Blob.chunked assignments and observations (as_raw, id, get_id(SHA-256), copy) every observation belongs to the current field values; (b) header folding: every header list (multi-line values: mergetag, gpgsig, extra headers) and body read back unchanged through _format_message/_parse_message; (c) trees: entries serialised with %04o modes are parsed back unchanged for every NUL-free name, every 32-bit mode, both id lengths. Correspondence: objects drawn from git's grammar (odd identities, negative / >2^32 times, -0000, half-hour zones, encoding, mergetags, PGP/SSH signatures, empty and newline-less messages, tags of every target type, trees with prefix collisions, chunked blobs): id vs hashlib SHA-1/SHA-256, parse(serialise)=fields, forced re-serialisation byte-exact, one field changed leaves all other headers alone (compared through the model's parser), git hash-object agrees on every id; setter/observation sequences on live objects; helper-level _format_message/_parse_message/serialize_tree vs the model. Partial: parse/format_time_entry and timezone arithmetic (float division in format_timezone) are exercised, not proved; SHA itself is hashlib's; tree sort order is checked by the model's tree_sorted on every run, not proved about Python's sorted().",
+   note="Three theorems closed under the global context. Known finding: message=None parses back as b''."),
 }
 props = [json.loads(l) for l in open(os.path.join(V, "properties.jsonl"))]
 base = json.load(open("/root/.vp/BASELINE.json"))
